@@ -14,6 +14,13 @@ for s in $seeds; do
   ids=$pid
   [ "$s" = "C08-c" ] && ids=C06
   [ "$s" = "C09-d" ] && ids=C01
+  [ "$s" = "C01-e" ] && ids=C02
+  [ "$s" = "C04-e" ] && ids=C06
+  [ "$s" = "C06-e" ] && ids=C03
+  [ "$s" = "C07-e" ] && ids=C01
+  [ "$s" = "C09-e" ] && ids=C01
+  [ "$s" = "C14-e" ] && ids=C16
+  [ "$s" = "C18-e" ] && ids=C17
   git -C $WT checkout -q -- . ; git -C $WT clean -fdq
   if ! git -C $WT apply /verif/seeded/$s/patch.diff 2>/dev/null; then echo "$s: PATCH DOES NOT APPLY"; miss=$((miss+1)); continue; fi
   caught=no
